@@ -1,12 +1,15 @@
 // corr-c12: config inheritance and namespace attribution follow the instantiated tree.
 //
-// Three things are checked on every generated module set:
+// Three things are checked on every generated module set, on the tree of every module and on the
+// own tree of every submodule (ToEntry(ms.SubModules[x]), not only its copy merged into the owner):
 //  1. correspondence: ReadOnly(), Namespace().Name and InstantiatingModule() of every node of every
-//     module tree, as goyang computes them, equal what the Lean resolver model (drv_res) computes
+//     tree, as goyang computes them, equal what the Lean resolver model (drv_c12 = the model of
+//     drv_res, dumping the submodule trees too) computes
 //     (projection ro, ns, im of the canonical dump; ns/im of library-inserted case nodes are masked:
 //     the property does not speak about them, DESIGN D39);
 //  2. a Go-side oracle for the read-only rule, written from the property text and not from the
-//     code: walking the real tree top-down, the pointer path decides — nearest explicit Config says
+//     code: walking the real tree top-down, the pointer path decides — nearest explicit config
+//     statement (as written according to the generator's table, else the entry's Config) says
 //     false, or the path went through some RPC.Output pointer (position, not the Kind the library
 //     wrote into the node) — and must equal
 //     ReadOnly() wherever no `config true` lies below an output (inside rpc/action/notification the
@@ -15,7 +18,8 @@
 //  3. a Go-side oracle for namespace attribution from generator knowledge (harness/gen/c12.go knows
 //     which module's text placed every node: grouping content => the user, augment body => the
 //     augmenting module's owner, submodule body => the owner): Namespace().Name and
-//     InstantiatingModule() of every node must be those of the placing module.
+//     InstantiatingModule() of every node must be those of the placing module. In a submodule's own
+//     tree every node must report the module named by belongs-to (nothing is grafted there).
 //
 // A mismatch in 2 or 3 is a disagreement of kind "spec" with verdict "violates".
 package main
@@ -57,6 +61,9 @@ const (
 type step struct {
 	e   *yang.Entry
 	via int
+	// cfg is the node's explicit config statement: as written, when the provenance table knows the
+	// node (the library may move or drop what it stored), else what the entry holds
+	cfg yang.TriState
 }
 
 // unwrittenIO: an rpc/action input or output that Find created (reached through RPC.Input/Output,
@@ -103,6 +110,23 @@ func hook(c rescorr.Case, ms *yang.Modules, errs []error, out *rescorr.GoOut) {
 		nsOwner[m.Namespace.Name] = m.Name
 	}
 	visited := map[string]bool{}
+	// subOwner is set while a submodule's own tree is walked: the module it belongs to.
+	var subOwner *yang.Module
+	// written: the config statement of the node at (tree, path)
+	written := func(tree, path string, e *yang.Entry) yang.TriState {
+		if expect != nil && subOwner == nil {
+			if x, ok := expect[tree+" "+path]; ok {
+				switch x.Cfg {
+				case "true":
+					return yang.TSTrue
+				case "false":
+					return yang.TSFalse
+				}
+				return yang.TSUnset
+			}
+		}
+		return e.Config
+	}
 	// walk goes top-down through Dir, RPC.Input and RPC.Output; chain is the pointer path from the
 	// root, path its rendering (the node's address in the tree, whatever Parent pointers say).
 	var walk func(tree, path string, chain []step)
@@ -111,17 +135,17 @@ func hook(c rescorr.Case, ms *yang.Modules, errs []error, out *rescorr.GoOut) {
 		// --- read-only, declaratively over the path
 		nearestFalse, inOutput, excluded, inOps, cfgInOps := false, false, false, false, false
 		for i := len(chain) - 1; i >= 0; i-- {
-			if chain[i].e.Config != yang.TSUnset {
-				nearestFalse = chain[i].e.Config == yang.TSFalse
+			if chain[i].cfg != yang.TSUnset {
+				nearestFalse = chain[i].cfg == yang.TSFalse
 				break
 			}
 		}
 		for _, s := range chain {
 			x := s.e
-			if inOutput && x.Config == yang.TSTrue {
+			if inOutput && s.cfg == yang.TSTrue {
 				excluded = true
 			}
-			if inOps && x.Config != yang.TSUnset {
+			if inOps && s.cfg != yang.TSUnset {
 				cfgInOps = true
 			}
 			if s.via == viaOutput {
@@ -155,6 +179,23 @@ func hook(c rescorr.Case, ms *yang.Modules, errs []error, out *rescorr.GoOut) {
 		key := tree + " " + path
 		visited[key] = true
 		switch {
+		case subOwner != nil:
+			// a submodule's own tree: nothing is grafted there, so every node - written in the
+			// submodule, brought in by its uses or by an include of another submodule - belongs to
+			// the module named by belongs-to
+			if lib {
+				cnt["lib_nodes_skipped"]++
+				break
+			}
+			cnt["ns_checked_in_submodule_tree"]++
+			if ns != subOwner.Namespace.Name {
+				add("namespace: %s (submodule tree): Namespace()=%q, want %q of the owning module", key, ns, subOwner.Namespace.Name)
+			}
+			if imErr != nil {
+				add("instantiating module: %s (submodule tree): error %v, want %q", key, imErr, subOwner.Name)
+			} else if im != subOwner.Name {
+				add("instantiating module: %s (submodule tree): %q, want the owning module %q", key, im, subOwner.Name)
+			}
 		case expect != nil:
 			x, ok := expect[key]
 			switch {
@@ -192,7 +233,7 @@ func hook(c rescorr.Case, ms *yang.Modules, errs []error, out *rescorr.GoOut) {
 			return
 		}
 		next := func(c *yang.Entry, name string, via int) {
-			walk(tree, path+"/"+name, append(chain[:len(chain):len(chain)], step{c, via}))
+			walk(tree, path+"/"+name, append(chain[:len(chain):len(chain)], step{c, via, written(tree, path+"/"+name, c)}))
 		}
 		ks := make([]string, 0, len(e.Dir))
 		for k := range e.Dir {
@@ -212,7 +253,21 @@ func hook(c rescorr.Case, ms *yang.Modules, errs []error, out *rescorr.GoOut) {
 		}
 	}
 	for _, m := range lib.DistinctModules(ms) {
-		walk(m.FullName(), "/"+m.Name, []step{{yang.ToEntry(m), viaRoot}})
+		walk(m.FullName(), "/"+m.Name, []step{{yang.ToEntry(m), viaRoot, yang.TSUnset}})
+	}
+	// the submodules' own trees (ToEntry of the submodule, not the copy merged into the owner)
+	var subDump []string
+	for _, m := range distinctSubs(ms) {
+		root := yang.ToEntry(m)
+		lib.DumpTree("sub:"+m.FullName(), root, &subDump)
+		if m.BelongsTo == nil {
+			continue
+		}
+		if o := ms.Modules[m.BelongsTo.Name]; o != nil && o.Namespace != nil {
+			subOwner = o
+			walk("sub:"+m.FullName(), "/"+m.Name, []step{{root, viaRoot, yang.TSUnset}})
+			subOwner = nil
+		}
 	}
 	if expect != nil {
 		var missing []string
@@ -226,10 +281,29 @@ func hook(c rescorr.Case, ms *yang.Modules, errs []error, out *rescorr.GoOut) {
 			add("tree shape: expected node %s is missing", k)
 		}
 	}
-	out.Extra = map[string][]string{}
+	out.Extra = map[string][]string{"subdump": subDump}
 	for k, v := range cnt {
 		out.Extra[k] = []string{strconv.Itoa(v)}
 	}
+}
+
+// distinctSubs returns the distinct values of ms.SubModules sorted by full name.
+func distinctSubs(ms *yang.Modules) []*yang.Module {
+	seen := map[*yang.Module]bool{}
+	var out []*yang.Module
+	for _, m := range ms.SubModules {
+		if !seen[m] {
+			seen[m] = true
+			out = append(out, m)
+		}
+	}
+	sort.Slice(out, func(i, j int) bool { return out[i].FullName() < out[j].FullName() })
+	return out
+}
+
+// goDump is the Go side of the comparison: the module trees, then the submodule trees.
+func goDump(o rescorr.Outcome) []string {
+	return append(append([]string{}, o.Go.Dump...), o.Go.Extra["subdump"]...)
 }
 
 type rec struct {
@@ -287,6 +361,9 @@ func project(dump []string, st map[string]int) []string {
 		}
 		if st != nil {
 			st["nodes"]++
+			if mb, _ := lib.UnHex(x.mod); strings.HasPrefix(string(mb), "sub:") {
+				st["nodes_in_submodule_trees"]++
+			}
 			if x.fields["ro"] == "1" {
 				st["nodes_read_only"]++
 			}
@@ -329,6 +406,8 @@ func corpus() []rescorr.Case {
 				tab[f[0]+" "+f[1]] = gen.C12Expect{Lib: true}
 			case 4:
 				tab[f[0]+" "+f[1]] = gen.C12Expect{NS: f[2], IM: f[3], By: f[3]}
+			case 5: // with the config statement written on the node
+				tab[f[0]+" "+f[1]] = gen.C12Expect{NS: f[2], IM: f[3], By: f[3], Cfg: strings.TrimPrefix(f[4], "cfg=")}
 			}
 		}
 		b, _ := json.Marshal(tab)
@@ -363,7 +442,7 @@ func corpus() []rescorr.Case {
 		// grouping defined in a, used in b, with an action; config three levels up; rpc output
 		mk(`a /a urn:a a
 			b /b urn:b b
-			b /b/top urn:b b
+			b /b/top urn:b b cfg=false
 			b /b/top/l1 urn:b b
 			b /b/top/l1/l2 urn:b b
 			b /b/top/l1/l2/gc urn:b b
@@ -374,7 +453,7 @@ func corpus() []rescorr.Case {
 			b /b/top/l1/l2/gc/act/output urn:b b
 			b /b/top/l1/l2/gc/act/output/o urn:b b
 			b /b/top/l1/l2/deep urn:b b
-			b /b/top/l1/l2/back urn:b b
+			b /b/top/l1/l2/back urn:b b cfg=true
 			b /b/top/l1/l2/back/rw urn:b b
 			b /b/r urn:b b
 			b /b/r/input urn:b b
@@ -392,7 +471,7 @@ func corpus() []rescorr.Case {
 		mk(`a /a urn:a a
 			a /a/r urn:a a
 			a /a/r/output urn:a a
-			a /a/r/output/c urn:a a
+			a /a/r/output/c urn:a a cfg=true
 			a /a/r/output/c/o urn:a a
 			a /a/r/output/p urn:a a`,
 			`module a { namespace "urn:a"; prefix a; rpc r { output { container c { config true; leaf o { type string; } } leaf p { type string; } } } }`),
@@ -401,7 +480,7 @@ func corpus() []rescorr.Case {
 		// augments the unwritten input of each instantiation (every instantiation needs its own)
 		mk(`g /g urn:g g
 			a /a urn:a a
-			a /a/state urn:a a
+			a /a/state urn:a a cfg=false
 			a /a/state/clear urn:a a
 			a /a/state/clear/input -
 			a /a/state/clear/input/s-arg urn:b b
@@ -422,6 +501,24 @@ func corpus() []rescorr.Case {
 			`module b { yang-version 1.1; namespace "urn:b"; prefix b; import a { prefix a; }
 			   augment "/a:state/a:clear/a:input" { leaf s-arg { type string; } } augment "/a:cfg/a:clear/a:input" { leaf c-arg { type string; } } }`,
 			`module b2 { yang-version 1.1; namespace "urn:b2"; prefix b2; import a2 { prefix a2; } augment "/a2:other/a2:clear/a2:output" { leaf o-arg { type string; } } }`),
+		// content written in submodules (one including the other): a grouping used there, config
+		// false, an rpc output; examined in the owner's tree (table) and in the submodules' own trees
+		mk(`owner /owner urn:owner owner
+			owner /owner/native urn:owner owner
+			owner /owner/native/n urn:owner owner
+			owner /owner/sub-c urn:owner owner cfg=false
+			owner /owner/sub-c/gl urn:owner owner
+			owner /owner/sub-c/s urn:owner owner
+			owner /owner/sub-rpc urn:owner owner
+			owner /owner/sub-rpc/output urn:owner owner
+			owner /owner/sub-rpc/output/r urn:owner owner
+			owner /owner/p2c urn:owner owner
+			owner /owner/p2c/q urn:owner owner
+			owner /owner/p2c/gl urn:owner owner`,
+			`module owner { namespace "urn:owner"; prefix o; include part; include part2; container native { leaf n { type string; } } }`,
+			`submodule part { belongs-to owner { prefix o; } include part2; grouping g { leaf gl { type string; } }
+			   container sub-c { config false; uses g; leaf s { type string; } } rpc sub-rpc { output { leaf r { type string; } } } }`,
+			`submodule part2 { belongs-to owner { prefix o; } container p2c { leaf q { type string; } uses g; } }`),
 		// augment from a submodule into another module, and into its own module
 		mk(`a /a urn:a a
 			a /a/c urn:a a
@@ -443,7 +540,7 @@ func corpus() []rescorr.Case {
 
 func sumExtra(tot map[string]int64, o rescorr.Outcome) {
 	for k, v := range o.Go.Extra {
-		if len(v) == 1 {
+		if k != "subdump" && len(v) == 1 {
 			n, _ := strconv.Atoi(v[0])
 			tot[k] += int64(n)
 		}
@@ -472,7 +569,7 @@ func replay(f *lib.Flags) {
 		fmt.Println("goyang crashed:", o.CrashMsg)
 		os.Exit(1)
 	}
-	g, m := project(o.Go.Dump, nil), project(o.Model, nil)
+	g, m := project(goDump(o), nil), project(o.Model, nil)
 	fmt.Println("go:")
 	for _, r := range g {
 		fmt.Println("  ", rescorr.Readable(r))
@@ -582,7 +679,7 @@ func main() {
 				continue
 			}
 			st := map[string]int{}
-			g := project(o.Go.Dump, st)
+			g := project(goDump(o), st)
 			m := project(o.Model, nil)
 			if d := rescorr.Diff(g, m); d != "" {
 				// the oracle for ro is always evaluated, the one for ns/im needs a provenance table
@@ -616,7 +713,7 @@ func main() {
 	}
 	res.Evaluations = total
 	res.DistinctNontrivial = distinct.Len()
-	res.Rule = "module sets: a hand-written corpus (D39, D40, grouping across modules with action, augment from a submodule), then seeded sets of harness/gen/c12.go (1-4 modules, 0-2 submodules each incl. nested include, globally unique groupings used across modules/submodules and inside each other, config statements at every depth on leaf/leaf-list/container/list/choice/anydata, choice/case with shorthand members, rpc/action/notification with config inside them at a low rate, augments from modules and submodules into own and imported modules incl. chains, shorthand choice members, written and unwritten rpc input/output, paths with and without implied-case steps; every 8th set additionally loads an older revision of one module) with the generator's provenance table, then sets of the shared generator gen.Generate (deviations included) without a table; distinct_nontrivial = distinct sets (by text) that process without errors and contain at least one read-only node or one node whose namespace differs from its tree's module"
+	res.Rule = "module sets: a hand-written corpus (D39, D40, grouping across modules with action, augment from a submodule), then seeded sets of harness/gen/c12.go (1-4 modules, 0-2 submodules each incl. nested include, globally unique groupings used across modules/submodules and inside each other, config statements at every depth on leaf/leaf-list/container/list/choice/anydata, choice/case with shorthand members, rpc/action/notification with config inside them at a low rate, augments from modules and submodules into own and imported modules incl. chains, shorthand choice members, written and unwritten rpc input/output, paths with and without implied-case steps; every 8th set additionally loads an older revision of one module) with the generator's provenance table, then sets of the shared generator gen.Generate (deviations included) without a table; every set is examined on all module trees and on the own trees of all submodules (incl. submodules that include other submodules); distinct_nontrivial = distinct sets (by text) that process without errors and contain at least one read-only node or one node whose namespace differs from its tree's module"
 	res.Distribution["clean_sets"] = clean
 	res.Distribution["clean_sets_with_provenance_table"] = cleanA
 	res.Distribution["sets_with_errors"] = withErr
